@@ -1048,6 +1048,11 @@ def prove(name, formula, timeout_ms=None, info=None):
         return rec["result"] == "unsat"
     neg = z3.Not(bv(formula))
     r, m = ctx.check([neg], timeout_ms, want_model=True)
+    if r == "unknown":
+        # heavy-tailed NRA queries: one retry with a doubled cap before the
+        # obligation is reported inconclusive
+        r, m = ctx.check([neg], 2 * (timeout_ms or ctx.timeout_ms), want_model=True)
+        rec["retried"] = True
     rec["result"] = r
     if r == "sat" and m is not None:
         rec["model"] = model_inputs(m)
